@@ -126,17 +126,18 @@ def run(chk):
     for smp in q["samples"][:2]:
         chk.sample(smp)
     # ---- long real streams: beyond 2^order_hint_bits (=128) in quick, beyond the 2048-deep reorder queues in thorough
-    streams = [dict(n=300, lv=4, ip=-1, content=4), dict(n=200, lv=3, ip=37, content=2)]
+    streams = [dict(n=300, lv=4, ip=-1, content=4), dict(n=200, lv=3, ip=37, content=2),
+               dict(n=2100, lv=4, ip=-1, content=4, w=64, h=64)]     # > 2048: every circular queue wraps
     if chk.tier == "thorough":
         streams += [dict(n=2200, lv=4, ip=-1, content=4), dict(n=2600, lv=5, ip=255, content=1), dict(n=5000, lv=3, ip=-1, content=2)]
 
     def one(st):
-        a = {"w": 128, "h": 64, "n": st["n"], "cfg.enc_mode": 8, "cfg.hierarchical_levels": st["lv"], "cfg.intra_period_length": st["ip"],
+        a = {"w": st.get("w", 128), "h": st.get("h", 64), "n": st["n"], "cfg.enc_mode": 8, "cfg.hierarchical_levels": st["lv"], "cfg.intra_period_length": st["ip"],
              "recon": 1, "decode": 1, "content": st["content"], "seed": chk.seed * 1000 + st["n"], "watchdog": 1200 + st["n"]}
         return st, C.run_e2e(a, timeout=2400 + 2 * st["n"])
     long_fail = []
     long_stats = []
-    for st, r in C.run_parallel(one, streams, workers=2):
+    for st, r in C.run_parallel(one, streams, workers=3):
         n = st["n"]
         pts = [p["pts"] for p in r["PKT"]]
         mism = [c for c in r["CMP"] if "MISMATCH" in c[1]]
@@ -146,7 +147,7 @@ def run(chk):
                            "recon_eq_decode": len(r["CMP"]) - len(mism), "ok": ok})
         if not ok:
             first_bad = next((i for i, (x, y) in enumerate(zip(pts, range(n))) if x != y), None)
-            long_fail.append("stream of %d frames (128x64, preset 8, levels %d, intra period %d): rc=%s hung=%s packets=%d decoded=%d "
+            long_fail.append("stream of %d frames (preset 8, levels %d, intra period %d): rc=%s hung=%s packets=%d decoded=%d "
                              "first out-of-order packet index=%s recon/decode mismatches=%s errors=%s\nargs: %s\n" %
                              (n, st["lv"], st["ip"], r["rc"], r["hung"], len(pts), len(r["DEC"]), first_bad, mism[:3], r["ERR"][:3], r["argv"]))
     chk.cov["long_streams"] = long_stats
